@@ -330,9 +330,12 @@ Qed.
 Lemma ediv_nonneg x n : 0 <= x -> 0 < n -> 0 <= ediv x n.
 Proof. intros. rewrite ediv_pos by lia. apply Z.div_pos; lia. Qed.
 
+Lemma secs_pos o bt h : 0 < fst (secs_per_cycle o bt h).
+Proof. unfold secs_per_cycle. destruct (o_cycle o <? h); simpl; lia. Qed.
+
 Lemma recompute_spec o bt ys h c r c' : recompute o bt ys h c = (r, c') ->
   match r with
-  | CErr => c' = c
+  | CErr => c' = cold
   | COk a =>
       c_amt c' = a /\ c_cycle c' = cycle_no o h /\
       (if c_burned c' then a = o_burnout o else a <= year_left o ys (c_year c'))
@@ -349,16 +352,35 @@ Proof.
       repeat split; auto. apply ediv_le_self. exact E.
 Qed.
 
+(* the result of a recalculation does not depend on the cache it starts from *)
+Lemma recompute_indep o bt ys h c c2 : recompute o bt ys h c = recompute o bt ys h c2.
+Proof. reflexivity. Qed.
+
 Lemma cycle_no_pos o h : 0 < o_cycle o -> 1 <= h -> 0 < cycle_no o h.
 Proof.
   intros Hc Hh. unfold cycle_no. assert (0 <= (h - 1) / o_cycle o) by (apply Z.div_pos; lia). lia.
 Qed.
 
-(* one PullRewards: from a cache that satisfies the invariant — or at the first block of a cycle
-   with a cache that is not in the burnout state — a successful pull is within the bound and
-   re-establishes the invariant *)
+Lemma cache_inv_cold o ys : cache_inv o ys cold.
+Proof. intros H. discriminate. Qed.
+
+Lemma calculate_err_cold o bt ys h c c' : calculate o bt ys h c = (CErr, c') -> c' = cold.
+Proof.
+  unfold calculate. destruct (warm c); [destruct (negb (first_in_cycle o h)); [discriminate|]|];
+    intros H; apply recompute_spec in H; exact H.
+Qed.
+
+Lemma pull_err_cold o bt ys h pool c c' : pull o bt ys h pool c = (CErr, c') -> c' = cold.
+Proof.
+  unfold pull. destruct (calculate o bt ys h c) as [[a|] c1] eqn:E; [discriminate|].
+  intros H. injection H as <-. eapply calculate_err_cold. exact E.
+Qed.
+
+(* one PullRewards: from a cache that satisfies the invariant (a cold cache does), or at the first
+   block of a cycle from ANY cache, a successful pull is within the bound and re-establishes the
+   invariant *)
 Lemma pull_bounded_step o bt ys h pool c a c' :
-  cache_inv o ys c \/ (first_in_cycle o h = true /\ c_burned c = false) ->
+  cache_inv o ys c \/ first_in_cycle o h = true ->
   pull o bt ys h pool c = (COk a, c') ->
   pull_bound o ys pool c' a = true /\ cache_inv o ys c'.
 Proof.
@@ -374,14 +396,10 @@ Proof.
     { intros c0 Hr. apply recompute_spec in Hr. destruct Hr as [Ha [_ Hb]].
       destruct (c_burned c1); split; intros; try discriminate; split; congruence || lia. }
     destruct (warm c) eqn:Ew; [|eapply Hrec; eauto].
-    destruct (c_burned c) eqn:Eb.
-    - injection Ecalc as <- <-. rewrite Eb.
-      destruct Hinv as [Hinv|[_ Hnb]]; [|congruence].
-      specialize (Hinv Ew). rewrite Eb in Hinv. split; intros; [auto|discriminate].
-    - destruct (first_in_cycle o h) eqn:Ef; simpl in Ecalc; [eapply Hrec; eauto|].
-      injection Ecalc as <- <-. rewrite Eb.
-      destruct Hinv as [Hinv|[Hf _]]; [|congruence].
-      specialize (Hinv Ew). rewrite Eb in Hinv. split; intros; [discriminate|auto]. }
+    destruct (first_in_cycle o h) eqn:Ef; simpl in Ecalc; [eapply Hrec; eauto|].
+    injection Ecalc as <- <-.
+    destruct Hinv as [Hinv|Hf]; [|discriminate].
+    specialize (Hinv Ew). destruct (c_burned c); split; intros; try discriminate; auto. }
   destruct Hres as [Hb Hn]. unfold pull_bound, cache_inv.
   destruct (c_burned c1) eqn:Eb.
   - destruct (Hb eq_refl) as [-> Hamt]. simpl. split; [|intros _; exact Hamt].
@@ -399,8 +417,6 @@ Proof.
   destruct n; destruct k; simpl; auto.
 Qed.
 
-(* ConsumeRewards on a block that does not end a cycle keeps the invariant; on a block that ends
-   a cycle the next block is the first of its cycle, where a non-burnout cache is recalculated *)
 Lemma consume_keeps_inv o ys h c x : last_in_cycle o h = false -> cache_inv o ys c ->
   cache_inv o (consume o ys h c x) c.
 Proof.
@@ -414,16 +430,25 @@ Lemma first_after_last o h : last_in_cycle o h = true -> first_in_cycle o (h + 1
 Proof. unfold last_in_cycle, first_in_cycle. replace (h + 1 - 1) with h by lia. auto. Qed.
 
 Lemma pull_hyp_next o ys h c x : cache_inv o ys c ->
-  cache_inv o (consume o ys h c x) c \/ (first_in_cycle o (h + 1) = true /\ c_burned c = false).
+  cache_inv o (consume o ys h c x) c \/ first_in_cycle o (h + 1) = true.
 Proof.
   intros Hinv. destruct (last_in_cycle o h) eqn:El.
-  - destruct (c_burned c) eqn:Eb.
-    + left. intros Hw. specialize (Hinv Hw). rewrite Eb in *. exact Hinv.
-    + right. split; [apply first_after_last; exact El|reflexivity].
+  - right. apply first_after_last. exact El.
   - left. apply consume_keeps_inv; assumption.
 Qed.
 
-(* non-negativity of the pulled amount outside the zero-length-cycle region *)
+(* every successful pull of every run is within the bound — no guard *)
+Lemma pull_bounded_run steps : forall o bt ys c h,
+  cache_inv o ys c \/ first_in_cycle o h = true -> all_bounded o bt ys c h steps.
+Proof.
+  induction steps as [|[pool x] r IH]; intros o bt ys c h Hinv; simpl; [exact I|].
+  destruct (pull o bt ys h pool c) as [[a|] c'] eqn:Ep.
+  - destruct (pull_bounded_step o bt ys h pool c a c' Hinv Ep) as [Hb Hc].
+    split; [exact Hb|]. apply IH. apply pull_hyp_next. exact Hc.
+  - apply pull_err_cold in Ep. subst c'. apply IH. left. apply cache_inv_cold.
+Qed.
+
+(* non-negativity of the pulled amount *)
 Lemma more_blocks_pos o secs tend ys i n y :
   0 < secs -> 0 < o_cycle o -> 0 <= o_window o ->
   Forall (fun yr => 0 <= dur_secs (y_close yr - tend) * o_cycle o < 2^63) ys ->
@@ -442,12 +467,11 @@ Qed.
 
 Lemma pull_nonneg o bt ys h pool c a c' :
   0 < o_cycle o -> 0 <= o_window o -> 0 <= o_burnout o -> 0 <= pool ->
-  0 < fst (secs_per_cycle o bt h) ->
   Forall (fun yr => 0 <= dur_secs (y_close yr - snd (secs_per_cycle o bt h)) * o_cycle o < 2^63) ys ->
   (warm c = true -> 0 <= c_amt c) ->
   pull o bt ys h pool c = (COk a, c') -> 0 <= a /\ 0 <= c_amt c'.
 Proof.
-  intros Hc Hw Hb Hp Hs Hall Hcache. unfold pull.
+  intros Hc Hw Hb Hp Hall Hcache. pose proof (secs_pos o bt h) as Hs. unfold pull.
   destruct (calculate o bt ys h c) as [r c1] eqn:Ecalc. destruct r as [a1|]; [|discriminate].
   intros H. injection H as <- <-.
   assert (Hres : 0 <= a1 /\ 0 <= c_amt c1).
@@ -463,10 +487,8 @@ Proof.
         apply Z.ltb_ge in El. intros H. injection H as <- <-. simpl.
         pose proof (ediv_nonneg _ n El ltac:(lia)). lia. }
     destruct (warm c) eqn:Ew; [|eapply Hrec; eauto].
-    destruct (c_burned c).
-    - injection Ecalc as <- <-. specialize (Hcache eq_refl). lia.
-    - destruct (first_in_cycle o h); simpl in Ecalc; [eapply Hrec; eauto|].
-      injection Ecalc as <- <-. specialize (Hcache eq_refl). lia. }
+    destruct (first_in_cycle o h); simpl in Ecalc; [eapply Hrec; eauto|].
+    injection Ecalc as <- <-. specialize (Hcache eq_refl). lia. }
   destruct Hres as [Ha Hc1]. split; [|exact Hc1].
   destruct (c_burned c1 && (pool <? a1)); lia.
 Qed.
@@ -486,14 +508,6 @@ Qed.
 
 Lemma recompute_sched o bt ys h c : recompute o bt (sched ys) h c = recompute o bt ys h c.
 Proof. unfold recompute. cbv zeta. rewrite !more_blocks_sched, !nthZ_sched_till. reflexivity. Qed.
-
-Lemma recompute_ok_indep o bt ys h c r c1 : recompute o bt ys h c = (COk r, c1) ->
-  forall c2, recompute o bt ys h c2 = (COk r, c1).
-Proof.
-  unfold recompute. cbv zeta.
-  destruct (fst (more_blocks o (fst (secs_per_cycle o bt h)) (snd (secs_per_cycle o bt h)) ys 0) =? 0); [auto|].
-  destruct (_ <? 0); [discriminate|auto].
-Qed.
 
 Lemma same_cycle_facts o h0 h : 0 < o_cycle o -> 1 <= h0 -> first_in_cycle o h0 = true ->
   h0 <= h -> cycle_no o h = cycle_no o h0 ->
@@ -523,28 +537,34 @@ Proof.
   unfold recompute, secs_per_cycle. rewrite He, Hlt, Hcn. reflexivity.
 Qed.
 
-Lemma restart_independent o bt ys ys' h0 h c0 r0 c1 :
+(* full: whatever cache c0 the running node had when the cycle started at h0 (first block of the
+   cycle), and whether the calculation there succeeded or failed, at every block h of the cycle
+   the running node (cache c1) and a restarted node (cold cache) compute the same result and end
+   with the same cache — namely the result of h0 *)
+Lemma restart_independent o bt ys ys' h0 h c0 :
   0 < o_cycle o -> 1 <= h0 -> first_in_cycle o h0 = true -> h0 <= h -> cycle_no o h = cycle_no o h0 ->
-  sticky_burnout c0 = false -> sched ys' = sched ys ->
-  calculate o bt ys h0 c0 = (COk r0, c1) ->
-  calculate o bt ys' h c1 = (COk r0, c1) /\ calculate o bt ys' h cold = (COk r0, c1).
+  sched ys' = sched ys ->
+  let res := calculate o bt ys h0 c0 in
+  calculate o bt ys' h (snd res) = res /\ calculate o bt ys' h cold = res.
 Proof.
-  intros HC Hh0 Hf Hle Hcn Hst Hsch Hc0.
-  assert (Hrec0 : recompute o bt ys h0 c0 = (COk r0, c1)).
-  { unfold calculate in Hc0. unfold sticky_burnout in Hst.
-    destruct (warm c0); [|exact Hc0]. simpl in Hst. rewrite Hst, Hf in Hc0. exact Hc0. }
-  pose proof (recompute_spec _ _ _ _ _ _ _ Hrec0) as [Hamt [Hcyc _]].
-  assert (Hany : forall c, recompute o bt ys' h c = (COk r0, c1)).
+  intros HC Hh0 Hf Hle Hcn Hsch res.
+  assert (Hres : res = recompute o bt ys h0 cold).
+  { unfold res, calculate. rewrite Hf. simpl. destruct (warm c0); reflexivity. }
+  assert (Hany : forall c, recompute o bt ys' h c = res).
   { intros c. rewrite <- recompute_sched, Hsch, recompute_sched.
-    rewrite (recompute_same_cycle o bt ys h0 h c HC Hh0 Hf Hle Hcn).
-    eapply recompute_ok_indep. exact Hrec0. }
-  assert (Hw : warm c1 = true).
-  { unfold warm. rewrite Hcyc. apply Z.ltb_lt. apply cycle_no_pos; assumption. }
-  split.
-  - unfold calculate. rewrite Hw. destruct (c_burned c1); [rewrite Hamt; reflexivity|].
+    rewrite (recompute_same_cycle o bt ys h0 h c HC Hh0 Hf Hle Hcn). rewrite Hres. reflexivity. }
+  assert (Hcold : calculate o bt ys' h cold = res) by (unfold calculate; simpl; apply Hany).
+  split; [|exact Hcold].
+  destruct res as [r c1] eqn:Er. simpl.
+  symmetry in Hres. pose proof (recompute_spec _ _ _ _ _ _ _ Hres) as Hspec.
+  destruct r as [a|].
+  - destruct Hspec as [Hamt [Hcyc _]].
+    assert (Hw : warm c1 = true).
+    { unfold warm. rewrite Hcyc. apply Z.ltb_lt. apply cycle_no_pos; assumption. }
+    unfold calculate. rewrite Hw.
     destruct (Z.eq_dec h h0) as [->|Hne].
     + rewrite Hf. simpl. apply Hany.
     + destruct (same_cycle_facts o h0 h HC Hh0 Hf Hle Hcn) as [_ [_ Hnf]].
       rewrite (Hnf Hne). simpl. rewrite Hamt. reflexivity.
-  - unfold calculate. simpl. apply Hany.
+  - subst c1. exact Hcold.
 Qed.
